@@ -79,6 +79,24 @@ func (a *smAn) inlineTarget(call *ast.CallExpr, depth int) *ast.FuncDecl {
 	if a.em.Handlers[fn] != nil || a.em.Cores[fn] || a.em.Ctors[fn] {
 		return nil
 	}
+	// an encoder that writes into a builder it is handed — enc(&buffer, r, set) — is one encoded write (smAn.call)
+	{
+		hasB, hasS, hasR := false, false, false
+		for i := 0; i < sig.Params().Len(); i++ {
+			pt := sig.Params().At(i).Type()
+			switch {
+			case pt.String() == "*strings.Builder":
+				hasB = true
+			case namedOf(pt) == "PercentEncodeSet":
+				hasS = true
+			case types.Identical(pt, types.Typ[types.Rune]) || types.Identical(pt, types.Typ[types.Byte]):
+				hasR = true
+			}
+		}
+		if hasB && hasS && hasR && sig.Results().Len() == 0 {
+			return nil
+		}
+	}
 	if fn.Signature.Recv() != nil {
 		switch namedOf(recvType(fn)) {
 		case "parser", "Url":
